@@ -11,8 +11,8 @@ repository's fixtures is `elanLayout`.
 
 * `parseLong_layout` — for every layout with `L.ok` (indents and trailing parts are blanks/tabs), the reader returns
   exactly the data written; `parseLong_layout_crlf` — the same text with CRLF line ends.
-* `parseLong_layout_signed` (`writeLongS`) — the same family with an optional `-` before any START numeral (Praat's `-0`
-  starts): the reader returns the unsigned numerals; `parseLong_layout` is the instance without signs.
+* signed numerals (`-0` starts, negative times) are numerals of the family since fix A30: `LongNum` admits a leading `-` on every
+  numeric row (`numAfter_gen`); `writeLongS` with its separate sign knob is internal scaffolding (knob off: `parseLong_layoutS`).
 * the data hypotheses (`LongNum`, `NoKwLong`, `StrippedLabels`, `NameRowFree`, `NoCRLF`, `Stripped'`), classified, and the
   counter-examples for what they exclude: last section.
 * `parseLong_elan`, `parseLong_praat`, `long_short_equal`, `dropEmpty_spec`.
@@ -1509,11 +1509,12 @@ theorem writeLong_noCRLF (L : Layout) (hL : L.Good) (num : α → String) (hnum 
 (indentation, `item [k]` / `item[k]`, `[k]:` / `[k]`, one or no blank on either side of `=`, trailing blanks and tabs per
 row kind) returns exactly the data written: tiers in order, class, name, span, every entry, labels character for
 character.  Hypotheses on the data as for praatio's own emitter (`C01.parseLong_emit`), classified for C03 (files from an
-independent writer, "arbitrary tier data"): `hnum` — no sign: `-0` starts are covered by `parseLong_layout_signed`; a
-negative time is misread, `long_short_negative_counterexample`; `hkw` — known defect A10 (`C01.parseLong_keyword_counterexample`);
+independent writer, "arbitrary tier data"): `hnum` — `-?[\d.]+(?:[eE][-+]?\d+)?`: `-0` starts and negative times included since
+fix A30 (`long_short_negative_regression`, `neg_zero_start_sample`); `hkw` — known defect A10 (`C01.parseLong_keyword_counterexample`);
 `hlab` — kept: the reader strips labels (`label.strip()`), and so do the `IntervalTier` / `PointTier` constructors the result
 is handed to, so whether a label with surrounding blanks is stripped by the reader is not observable at `openTextgrid`;
-`hname` — needed, `long_short_name_newline_counterexample`; `hcr` — a `\r\n` inside a label of an LF file is taken for a line
+`hname` (`NameRowFree`: single-line, or without the words `xmin` / `xmax`; multi-line names are read since fix A32) — needed,
+`long_short_name_row_counterexample` (known finding A33); `hcr` — a `\r\n` inside a label of an LF file is taken for a line
 end (CRLF normalisation is part of the reader's contract: `parseLong_layout_crlf`). -/
 theorem parseLong_layout (L : Layout) (hok : L.ok = true) (num : α → String) (hnum : ∀ x, LongNum (num x).toList) (g : Tg α)
     (lo hi : α) (hkw : ∀ t ∈ g.tiers, NoKwLong t) (hlab : ∀ t ∈ g.tiers, StrippedLabels t)
@@ -1802,20 +1803,19 @@ theorem parseLong_tight (num : α → String) (hnum : ∀ x, LongNum (num x).toL
 
 /-! ## what the data hypotheses exclude, replayed and proved (hypothesis audit)
 
-`parseLong_layout` and `long_short_equal` carry hypotheses on the numerals (`LongNum`: no sign), on names (`NameRowFree`,
-`Stripped'`) and on labels.  C03 quantifies over files written "from arbitrary tier data"; each excluded case was replayed on
-praatio (and agrees with the model):
+`parseLong_layout` and `long_short_equal` carried hypotheses on the numerals (`LongNum`: no sign), on names (single-line; for the
+short format strip-invariant) and on labels.  C03 quantifies over files written "from arbitrary tier data"; each excluded case was
+replayed on praatio, agreed with the model — and was a genuine defect of one of the two readers.  All three are repaired in /repo
+and the hypotheses are gone or weakened; the former counter-example theorems are regression theorems:
 
-* a SIGNED numeral — `-0` starts are in C03's quantifier: on the rows whose pattern has `-?` the sign is matched and dropped
-  (whole files, any layout: `parseLong_layout_signed`, `parseLong_layout_signed_crlf`; one row: `numAfter_start_gen`,
-  `numAfter_signed_gen`; a concrete file: `neg_zero_start_sample`), which is right for `-0` and WRONG for a negative time: a
-  point at `-1` is read as a point at `1`, silently, from a long file, and as `-1` from the short file
-  (`long_short_negative_counterexample`); on an `xmax` row a signed numeral matches nothing (`numAfter_signed_none`:
-  `ParsingError`);
-* a tier NAME with surrounding blanks: kept by the long-format reader, stripped by the short-format one
-  (`long_short_name_blank_counterexample`);
-* a multi-line tier NAME: read by the short-format reader, `ParsingError` in the long-format one
-  (`long_short_name_newline_counterexample`).
+* a SIGNED numeral (A30, fixed c4606fd) — the sign is captured with the numeral on every numeric row (`numAfter_gen`,
+  `numAfter_signed_gen`; a concrete file: `neg_zero_start_sample`); a point at `-1` is read as `-1` from the long and from the
+  short file (`long_short_negative_regression`).  Before: matched but dropped on start rows, `ParsingError` on `xmax` rows;
+* a tier NAME with surrounding blanks (A31, fixed db5fb4a): kept by both readers (`long_short_name_blank_regression`).  Before:
+  stripped by the short-format reader;
+* a multi-line tier NAME (A32, fixed ae33f8b): read by both readers (`long_short_name_newline_regression`).  Before:
+  `ParsingError` in the long-format one.  What `NameRowFree` still excludes — a name LINE that reads like the tier's span row — is
+  `long_short_name_row_counterexample` (known finding A33).
 -/
 
 /-- **a signed numeral on ANY numeric row** (`xmin`, `xmax` of a tier or an interval, `number` of a point — pattern
